@@ -27,15 +27,54 @@ def _sync(repo, dst):
     for name in ("Cargo.toml", "Cargo.lock"):
         src = os.path.join(repo, name)
         if os.path.exists(src):
-            shutil.copy2(src, os.path.join(dst, name))
+            d = os.path.join(dst, name)
+            if not os.path.exists(d) or open(src, "rb").read() != open(d, "rb").read():
+                shutil.copy(src, d)
     for sub in ("a2lfile", "a2lmacros"):
         s = os.path.join(repo, sub)
         if not os.path.isdir(s):
             continue
-        r = subprocess.run(["rsync", "-a", "--delete", "--exclude", "target", "--exclude", "tests/vf_driver_*.rs",
+        # checksum-based, NOT time-preserving: a file whose content changed gets a fresh mtime, so cargo rebuilds it
+        # (with preserved times an older source would not invalidate a newer build of different content)
+        r = subprocess.run(["rsync", "-rlc", "--delete", "--exclude", "target", "--exclude", "tests/vf_driver_*.rs",
                             s + "/", os.path.join(dst, sub) + "/"], capture_output=True, text=True)
         if r.returncode != 0:
             raise RuntimeError("rsync failed: " + r.stderr[-300:])
+
+
+def _tree_hash(dst):
+    import hashlib
+    h = hashlib.sha256()
+    for sub in ("Cargo.toml", "Cargo.lock", "a2lfile", "a2lmacros"):
+        pth = os.path.join(dst, sub)
+        if os.path.isfile(pth):
+            h.update(open(pth, "rb").read())
+            continue
+        for root, dirs, files in os.walk(pth):
+            dirs.sort()
+            if "target" in dirs:
+                dirs.remove("target")
+            for f in sorted(files):
+                if f.startswith("vf_driver_"):
+                    continue
+                fp = os.path.join(root, f)
+                h.update(fp.encode())
+                h.update(open(fp, "rb").read())
+    return h.hexdigest()
+
+
+def _force_rebuild_if_changed(dst):
+    """cargo decides by mtime; make sure a tree whose CONTENT differs from the one last built is rebuilt"""
+    marker = os.path.join(BASE, "built-tree-hash")
+    cur = _tree_hash(dst)
+    old = open(marker).read().strip() if os.path.exists(marker) else ""
+    if cur != old:
+        for rel in ("a2lfile/src/lib.rs", "a2lmacros/src/lib.rs"):
+            fp = os.path.join(dst, rel)
+            if os.path.exists(fp):
+                os.utime(fp, None)
+        with open(marker, "w") as f:
+            f.write(cur)
 
 
 def run_driver(pid, repo, tier="quick", seed=1, timeout=None):
@@ -53,6 +92,7 @@ def run_driver(pid, repo, tier="quick", seed=1, timeout=None):
             _sync(repo, dst)
         except Exception as e:
             return {"status": "build-error", "detail": str(e), "seconds": round(time.time() - t0, 1)}
+        _force_rebuild_if_changed(dst)
         tdir = os.path.join(dst, "a2lfile", "tests")
         os.makedirs(tdir, exist_ok=True)
         for f in os.listdir(tdir):
@@ -74,8 +114,8 @@ def run_driver(pid, repo, tier="quick", seed=1, timeout=None):
                 os.remove(os.path.join(tdir, tname + ".rs"))
             except OSError:
                 pass
-    failing = [l.strip() for l in out.split("\n") if l.strip().startswith("FAILING-INPUT")]
-    summ = [l.strip() for l in out.split("\n") if l.strip().startswith("DRIVER-SUMMARY")]
+    failing = [l[l.index("FAILING-INPUT"):].strip() for l in out.split("\n") if "FAILING-INPUT" in l]
+    summ = [l[l.index("DRIVER-SUMMARY"):].strip() for l in out.split("\n") if "DRIVER-SUMMARY" in l]
     res = {"seconds": round(time.time() - t0, 1), "cmd": " ".join(cmd) + " (VF_BUDGET=%s VF_SEED=%s)" % (tier, seed),
            "summary": summ[-1] if summ else "", "failing": failing[:5]}
     compiled = ("Running tests/" in out) or ("running " in out and "test result" in out) or bool(summ)
